@@ -463,7 +463,7 @@ def warm_decide(case, mod=3):
     return zlib.crc32(json.dumps(case, sort_keys=True, default=str).encode()) % mod == 0
 
 
-def warmup(G, call, layers=("directed", "bidirected", "circle", "undirected")):
+def warmup(G, call, layers=("directed", "bidirected", "circle", "undirected"), salt=None):
     """Exercise 'query, edit the same object in place, query again': perturb G in place, run `call()` on the
     perturbed graph (result and exceptions ignored), then restore G in place.  The perturbation keeps the
     number of nodes and of edges per type (so count-validated memo tables stay "valid"): one edge (u,v) is
@@ -473,17 +473,68 @@ def warmup(G, call, layers=("directed", "bidirected", "circle", "undirected")):
     are often cleared in only some of them.  Afterwards G has the same nodes and edges as before (edge
     insertion order may differ, which no property may depend on)."""
     mixed = hasattr(G, "get_graphs")
+    if salt is not None and salt % 2 == 1:
+        return detour(G, call, salt, layers)
+    if salt is not None and len(layers) > 1:
+        k0 = salt % len(layers)
+        layers = tuple(layers[k0:]) + tuple(layers[:k0])
     for layer in layers:
         try:
             gr = G.get_graphs(layer) if mixed else G
         except Exception:
             continue
         es = list(gr.edges)
-        if not es:
+        mode = ((len(es) + len(gr)) if salt is None else (salt // 5)) % 3
+        if not es and not (mode == 1 and salt is not None and len(gr) >= 2):
             if not mixed:
                 return False
             continue
-        u, v = es[len(es) // 2]
+        u, v = es[len(es) // 2] if es else (None, None)
+        if mode == 2 and not es:
+            mode = 1
+        if mode:
+            # modes 1, 2: the graph temporarily HAS MORE than the case's graph; the surplus is taken away
+            # again through a removal API that is easy to forget when invalidating per-object state
+            # (mode 1: an extra edge removed with remove_edges_from; mode 2: an extra node with an edge,
+            # removed with remove_node) and nothing is added afterwards
+            try:
+                if mode == 1:
+                    cand = [(a, b) for a in list(gr.nodes) for b in list(gr.nodes) if a != b
+                            and not gr.has_edge(a, b) and not gr.has_edge(b, a)]
+                    if salt is not None and cand:
+                        k1 = (salt // 15) % len(cand)
+                        cand = cand[k1:] + cand[:k1]
+                    for a, b in cand[:4]:
+                        try:
+                            G.add_edge(a, b, layer) if mixed else G.add_edge(a, b)
+                        except Exception:
+                            continue
+                        try:
+                            call()
+                        except BaseException:
+                            pass
+                        finally:
+                            G.remove_edges_from([(a, b)], layer) if mixed else G.remove_edges_from([(a, b)])
+                        return True
+                else:
+                    extra = ("warm-up-node", len(es))
+                    G.add_node(extra)
+                    try:
+                        try:
+                            G.add_edge(u, extra, layer) if mixed else G.add_edge(u, extra)
+                        except Exception:
+                            pass
+                        try:
+                            call()
+                        except BaseException:
+                            pass
+                    finally:
+                        G.remove_node(extra)
+                    return True
+            except Exception:
+                pass
+        if not es:
+            continue
         data = dict(gr.get_edge_data(u, v) or {})
         bulk = (len(es) % 2 == 1)
 
@@ -535,3 +586,103 @@ def warmup(G, call, layers=("directed", "bidirected", "circle", "undirected")):
                 gr.add_edge(u, v, **data)
         return True
     return False
+
+
+def detour(G, call, salt, layers=("directed", "bidirected", "circle", "undirected")):
+    """A random in-place detour through other graphs and back: a few steps that add a surplus edge or take
+    an existing edge away (single-edge or bulk API, chosen at random), with `call()` after every step
+    (result and exceptions ignored), then everything is undone in a random order, again through randomly
+    chosen single-edge / bulk APIs.  Afterwards G has the nodes and edges it started with.  Any state kept
+    per object (memo tables, cached views, parent caches cleared in only some mutators) is exercised at
+    intermediate graphs and must not influence the real query that follows.  Deterministic in `salt`."""
+    import random as _r
+    rng = _r.Random(salt)
+    mixed = hasattr(G, "get_graphs")
+    lays = []
+    for L in layers:
+        try:
+            lays.append((L, G.get_graphs(L) if mixed else G))
+        except Exception:
+            pass
+        if not mixed:
+            break
+    if not lays:
+        return False
+    nodes = list(G.nodes)
+    if len(nodes) < 2:
+        return False
+
+    def adjacent_elsewhere(a, b, L):
+        return any(M != L and (gr.has_edge(a, b) or gr.has_edge(b, a)) for M, gr in lays)
+
+    def add(L, gr, a, b, data=None):
+        kw = dict(data or {})
+        if rng.random() < 0.5:
+            G.add_edges_from([(a, b)], L, **kw) if mixed else G.add_edges_from([(a, b)], **kw)
+        else:
+            G.add_edge(a, b, L, **kw) if mixed else G.add_edge(a, b, **kw)
+
+    def rem(L, gr, a, b):
+        if rng.random() < 0.5:
+            G.remove_edges_from([(a, b)], L) if mixed else G.remove_edges_from([(a, b)])
+        else:
+            G.remove_edge(a, b, L) if mixed else G.remove_edge(a, b)
+    surplus, removed = [], []
+    for _ in range(rng.choice((2, 3, 4))):
+        L, gr = rng.choice(lays)
+        r = rng.random()
+        if r < 0.55:
+            gone = [(x[2], x[3]) for x in removed if x[0] == L]
+            pairs = [(a, b) for a in nodes for b in nodes if a != b and not gr.has_edge(a, b)
+                     and not (not gr.is_directed() and gr.has_edge(b, a))
+                     and (a, b) not in gone and (b, a) not in gone]
+            pref = [p for p in pairs if adjacent_elsewhere(p[0], p[1], L)]
+            pool = pref if (pref and rng.random() < 0.6) else pairs
+            if pool:
+                a, b = rng.choice(pool)
+                try:
+                    add(L, gr, a, b)
+                    surplus.append((L, gr, a, b))
+                except Exception:
+                    pass
+        elif r < 0.85:
+            es = [(u, v) for u, v in gr.edges if not any(s[0] == L and {s[2], s[3]} == {u, v} for s in surplus)]
+            if es:
+                u, v = rng.choice(es)
+                data = dict(gr.get_edge_data(u, v) or {})
+                try:
+                    rem(L, gr, u, v)
+                    removed.append((L, gr, u, v, data))
+                except Exception:
+                    pass
+        try:
+            call()
+        except BaseException:
+            pass
+    ops = [("rm", s) for s in surplus] + [("add", x) for x in removed]
+    rng.shuffle(ops)
+    pending = ops
+    for attempt in range(3):
+        nxt = []
+        for kind, x in pending:
+            try:
+                if kind == "rm":
+                    if x[1].has_edge(x[2], x[3]):
+                        rem(x[0], x[1], x[2], x[3])
+                else:
+                    if not x[1].has_edge(x[2], x[3]):
+                        add(x[0], x[1], x[2], x[3], x[4])
+            except Exception:
+                nxt.append((kind, x))
+        pending = nxt
+        if not pending:
+            break
+    for kind, x in pending:  # last resort: through the layer itself
+        try:
+            if kind == "rm":
+                x[1].remove_edge(x[2], x[3])
+            else:
+                x[1].add_edge(x[2], x[3], **x[4])
+        except Exception:
+            pass
+    return True
